@@ -116,6 +116,10 @@ fn run_one(cmd: &str, input: &[u8]) -> String {
       for (bi, b) in batches.iter().enumerate() {
         let mut w = match idx.writer() { Ok(w) => w, Err(e) => return format!("ERR writer {}", e) };
         for d in b.as_array().unwrap_or(&empty) {
+          // a field value {"$f64_bits": n} stands for the double with that bit pattern, handed to the engine as a number in
+          // memory (what a Rust or FFI caller passes), not as decimal text that a JSON parser has already rounded
+          let mut d = d.clone();
+          f64_from_bits_in_place(&mut d);
           let doc: searchlite_core::api::types::Document = match serde_json::from_value(serde_json::json!({"fields": d})) { Ok(d) => d, Err(e) => return format!("ERR doc {}", e) };
           if let Err(e) = w.add_document(&doc) { return format!("ERR add {}", e); }
         }
@@ -286,7 +290,7 @@ fn run_one(cmd: &str, input: &[u8]) -> String {
       format!("OK {}", serde_json::Value::Array(outs))
     }
     "history" => {
-      // input: JSON {"ops": [["add", {doc}], ["del", "id"], ["commit"], ["rollback"], ["restart"], ["compact"]]}
+      // input: JSON {"ops": [["add", {doc}], ["del", "id"], ["commit"], ["rollback"], ["restart"], ["tear", n], ["compact"]]}
       // "restart" = the process dies (writer leaked, nothing synced explicitly) and the index is reopened on the same storage.
       // output: after the ops, a final commit of whatever a fresh writer recovers, then the live (id, stored fields) sorted by id.
       let v: serde_json::Value = match serde_json::from_slice(input) { Ok(v) => v, Err(e) => return format!("ERR bad input {}", e) };
@@ -323,6 +327,19 @@ fn run_one(cmd: &str, input: &[u8]) -> String {
           "commit" => { if let Err(e) = writer.as_mut().unwrap().commit() { log.push(format!("commit failed: {}", e)); } }
           "rollback" => { if let Err(e) = writer.as_mut().unwrap().rollback() { log.push(format!("rollback failed: {}", e)); } }
           "compact" => { if let Err(e) = idx.compact() { log.push(format!("compact failed: {}", e)); } }
+          "tear" => {
+            // the process dies in the middle of an append: half a record (length 32, type 1, the first payload bytes) is
+            // left behind the intact records of the log, then the index is reopened
+            std::mem::forget(writer.take());
+            let wp = path.join("wal.log");
+            let mut bytes = if storage.exists(&wp) { storage.read_to_end(&wp).unwrap_or_default() } else { Vec::new() };
+            let n = op[1].as_u64().unwrap_or(6) as usize;
+            let half: [u8; 12] = [0x20, 0x01, b'{', b'"', b'f', b'i', b'e', b'l', b'd', b's', b'"', b':'];
+            bytes.extend_from_slice(&half[..n.min(12)]);
+            if let Err(e) = storage.write_all(&wp, &bytes) { return format!("ERR tear {}", e); }
+            idx = match searchlite_core::Index::open_with_storage(mk_opts(), storage.clone()) { Ok(i) => i, Err(e) => return format!("ERR reopen {}", e) };
+            writer = match idx.writer() { Ok(w) => Some(w), Err(e) => return format!("ERR writer after tear {}", e) };
+          }
           "restart" => {
             std::mem::forget(writer.take());
             idx = match searchlite_core::Index::open_with_storage(mk_opts(), storage.clone()) { Ok(i) => i, Err(e) => return format!("ERR reopen {}", e) };
@@ -345,6 +362,22 @@ fn run_one(cmd: &str, input: &[u8]) -> String {
       }
     }
     _ => "ERR unknown command".to_string(),
+  }
+}
+
+fn f64_from_bits_in_place(v: &mut serde_json::Value) {
+  match v {
+    serde_json::Value::Object(m) => {
+      if m.len() == 1 {
+        if let Some(b) = m.get("$f64_bits").and_then(|b| b.as_u64()) {
+          if let Some(n) = serde_json::Number::from_f64(f64::from_bits(b)) { *v = serde_json::Value::Number(n); }
+          return;
+        }
+      }
+      for (_, x) in m.iter_mut() { f64_from_bits_in_place(x); }
+    }
+    serde_json::Value::Array(a) => { for x in a.iter_mut() { f64_from_bits_in_place(x); } }
+    _ => {}
   }
 }
 
